@@ -49,12 +49,16 @@ static void c06_gen_common(Tape &t, Case &c, bool bulkmode) {
     g.maxm = 14; g.maxn = 14; g.bulk = 4; g.maxrowlen = 6; g.maxdel = 4;
     gen_start_model(t, 5, 5, big, true, m);
   }
+  // integer marks exist only on reader-made objects (route R_FILE over the harness's own MPS text); the runner
+  // drops the marks when that route cannot be taken for this model
+  bool ints = m.n() > 0 && t.chance(1, 6);
+  if (ints) { bool any = false; for (auto &col : m.cols) if (t.coin()) { col.isint = true; any = true; } if (!any) m.cols[0].isint = true; }
   // give placeholder names to unnamed start entries for the generator's own bookkeeping
   Model gm = m;
   for (int j = 0; j < gm.n(); j++) if (gm.cols[j].name.empty()) gm.cols[j].name = "\x01s" + std::to_string(j);
   for (int i = 0; i < gm.m(); i++) if (gm.rows[i].name.empty()) gm.rows[i].name = "\x01t" + std::to_string(i);
   c.add_model(m);
-  c.ops.push_back(Op("route").I(t.below(R_NROUTES)));
+  c.ops.push_back(Op("route").I(ints ? (long)R_FILE : (long)t.below(R_NROUTES)));
   int len = bulkmode ? 4 + (int)t.below(40) : 1 + (int)t.below(30);
   int unk = 0;
   int growth = bulkmode ? 2 + (int)t.below(3) : 0;   // bulk mode opens with big multi-row/column adds
@@ -105,6 +109,12 @@ void c06_run(const Case &c, Result &r) {
   mpq_QSprob p = sut_build(m, route, &why);
   if (!p) { r.fail("build:" + why, "building a valid start problem failed: " + why); return; }
   r.label("route" + std::to_string(route));
+  {
+    bool want_int = false;
+    for (auto &col : m.cols) want_int |= col.isint;
+    if (!g_built_via_file) for (auto &col : m.cols) col.isint = false;
+    if (want_int) r.label(g_built_via_file ? "start:integer-marks" : "start:integer-marks-dropped");
+  }
   Model d;
   if (!sut_dump(p, d, &why)) { r.fail("dump-inconsistent:start", why); mpq_QSfree_prob(p); return; }
   // adopt names the library invented for the start problem
